@@ -1,0 +1,47 @@
+//go:build verif
+
+package replica
+
+import (
+	"context"
+
+	"github.com/lindb/lindb/coordinator/storage"
+	"github.com/lindb/lindb/models"
+	"github.com/lindb/lindb/pkg/queue"
+	"github.com/lindb/lindb/rpc"
+	"github.com/lindb/lindb/tsdb"
+)
+
+// verifPartition is a real partition whose StartReplica does not start the free-running replica loop:
+// a verification harness performs every replication step itself (only compiled with -tags verif).
+type verifPartition struct {
+	*partition
+}
+
+// StartReplica does nothing: steps are driven by VerifReplicaOnce.
+func (v *verifPartition) StartReplica() {}
+
+// VerifDisableReplicaLoop makes all partitions created from now on step-driven and returns a function
+// restoring the previous constructor.
+func VerifDisableReplicaLoop() (restore func()) {
+	old := NewPartitionFn
+	NewPartitionFn = func(ctx context.Context, shard tsdb.Shard, family tsdb.DataFamily, currentNodeID models.NodeID,
+		log queue.FanOutQueue, cliFct rpc.ClientStreamFactory, stateMgr storage.StateManager,
+	) Partition {
+		return &verifPartition{partition: NewPartition(ctx, shard, family, currentNodeID, log, cliFct, stateMgr).(*partition)}
+	}
+	return func() { NewPartitionFn = old }
+}
+
+// VerifReplicaOnce runs one iteration of the replica loop body for every replicator of the partition.
+func VerifReplicaOnce(p Partition) {
+	vp := p.(*verifPartition)
+	for nodeID, replicator := range vp.replicators {
+		vp.replica(nodeID, replicator)
+	}
+}
+
+// VerifPartitionLog returns the partition's underlying fan-out queue.
+func VerifPartitionLog(p Partition) queue.FanOutQueue {
+	return p.(*verifPartition).log
+}
